@@ -933,6 +933,54 @@ def quantifier_instances(tname, fields):
     return L
 
 
+def outcome_clock(mro):
+    """
+    Which clock does `set_congenital` (the writer of the birth-outcome timers, outside the three translated methods)
+    schedule in?  Returns None when the class chain only has the empty default, else
+    dict(in_module_clock=bool, writes=[...]).  `self.ti` / `self.t.ti` = the module's own step index, `self.sim.ti` = the
+    simulation's.  Fails closed when a non-trivial `set_congenital` schedules nothing recognisable.
+    """
+    fn = None
+    for ci in mro:
+        f = ci.funcs.get('set_congenital')
+        if f is not None:
+            body = [st for st in f.body if not (isinstance(st, ast.Expr) and isinstance(st.value, ast.Constant))]
+            if all(isinstance(st, (ast.Pass, ast.Return)) for st in body):
+                return None
+            fn, owner = f, ci
+            break
+    if fn is None:
+        return None
+    alias = {}
+    for n in ast.walk(fn):
+        if isinstance(n, ast.Assign) and len(n.targets) == 1 and isinstance(n.targets[0], ast.Name) and isinstance(n.value, (ast.Attribute, ast.Name)):
+            alias[n.targets[0].id] = n.value
+
+    def path(node, depth=0):
+        if isinstance(node, ast.Name):
+            if node.id in alias and depth < 8: return path(alias[node.id], depth + 1)
+            return node.id
+        if isinstance(node, ast.Attribute):
+            b = path(node.value, depth)
+            return None if b is None else f'{b}.{node.attr}'
+        return None
+    writes = []
+    for n in ast.walk(fn):
+        if isinstance(n, (ast.Assign, ast.AugAssign)):
+            tg = n.targets[0] if isinstance(n, ast.Assign) else n.target
+            if not isinstance(tg, ast.Subscript): continue
+            clocks = set()
+            for m in ast.walk(n.value):
+                pth = path(m) if isinstance(m, (ast.Attribute, ast.Name)) else None
+                if pth in Translator.NOW_PATHS: clocks.add('module')
+                elif pth in Translator.SIM_NOW_PATHS: clocks.add('sim')
+            if clocks:
+                writes.append(dict(line=n.lineno, text=unparse(n)[:100], clocks=sorted(clocks)))
+    if not writes:
+        raise ExtractError(f'{owner.name}.set_congenital schedules no time the translator recognises (cannot tell its clock)')
+    return dict(defined_in=owner.name, in_module_clock=all(w['clocks'] == ['module'] for w in writes), writes=writes)
+
+
 def translate_disease(src, name):
     rel, cls = DISEASE_CLASSES[name]
     mro = mro_of(src, rel, cls)
@@ -992,6 +1040,13 @@ def translate_disease(src, name):
     L.append(f'def infectionTimeIsNow : Bool := {"true" if state else "false"}')
     facts['infection_time_is_now'] = bool(state)
     facts['ti_infected_writes'] = writes
+    # birth outcomes (set_congenital): which clock are they scheduled in?  (step_state compares them with the module's own index)
+    oc = outcome_clock(mro)
+    facts['outcome_clock'] = oc
+    if oc is not None:
+        L.append('/-- `set_congenital` schedules every birth outcome in the module\'s own clock (`self.ti`), the clock `step_state` compares it in; writes: ' +
+                 '; '.join(f"line {w['line']}: {w['text']} [{'+'.join(w['clocks'])}]" for w in oc['writes']).replace('-/', '- /') + ' -/')
+        L.append(f'def congenitalOutcomeInModuleClock : Bool := {"true" if oc["in_module_clock"] else "false"}')
     # infectious
     tr.ops = []; tr.atoms = []; tr.nvar = 0; tr.writes = {}; tr.timers = []; tr.events = []; tr.pc = []; tr.depth = 0; tr.path = []
     tr.cur_file = ''
